@@ -1301,6 +1301,18 @@ def _op_once(task, given, rng, focus):
                  'heisenberg_xxz_spin1': lambda: ptn.heisenberg_xxz_spin1_mpo(L, *p), 'bose_hubbard': lambda: ptn.bose_hubbard_mpo(task.get('d') or 3, L, *p),
                  'fermi_hubbard': lambda: ptn.fermi_hubbard_mpo(L, *p)}[model]()
         results = [(x, 'mpo', model)]
+    elif op == 'scalars':
+        from pytenet import operation as OP
+        L, d = task['L'], task['d']
+        P = (1,) + (2,) * (L - 1) + (1,)
+        qd, (q0, q1, q2) = _mk_charges(task, d, [P, P, P], given, rng)
+        psi = _rand_obj(rng, 'mps', qd, q0); chi = _rand_obj(rng, 'mps', qd.copy(), q1); H = _rand_obj(rng, 'mpo', qd.copy(), q2)
+        snap = _snapshot([psi, chi, H])
+        OP.vdot(chi, psi); OP.operator_average(psi, H); OP.operator_inner_product(chi, H, psi); OP.operator_density_average(H, H)
+        psi.as_vector(); H.as_matrix(); OP.compute_right_operator_blocks(psi, H)
+        if not _same([psi, chi, H], snap):
+            fails.append('a scalar-valued operation / dense conversion modified its arguments')
+        return fails
     elif op == 'identity':
         qd = _charges('qd', task['d'], given, rng); qd_ = qd.copy()
         x = ptn.MPO.identity(qd, task['L'], scale=2.0)
@@ -1310,7 +1322,7 @@ def _op_once(task, given, rng, focus):
             if not np.array_equal(qd, qd_):
                 fails.append('identity MPO shares qd with its argument')
     else:
-        return [f'unknown op {op}']
+        raise RuntimeError(f'harness error: no concrete driver for op {op}')
 
     if focus == 'C02':
         for (x, kind, name) in results:
@@ -1345,6 +1357,10 @@ def check_op_step(inp):
         rng = np.random.default_rng(1000 * int(inp.get('seed', 0)) + rep)
         try:
             f = _op_once(task, given, rng, focus)
+        except RuntimeError as e:
+            if 'harness error' in str(e):
+                print(e); sys.exit(3)
+            raise
         except Exception as e:
             import traceback
             tb = traceback.extract_tb(e.__traceback__)[-1]
@@ -1352,6 +1368,44 @@ def check_op_step(inp):
         if f:
             fails += f
             break
+    return fails
+
+
+@check('graph_alias')
+def check_graph_alias(inp):
+    import pytenet as ptn
+    from pytenet.opchain import OpChain
+    from pytenet.opgraph import OpGraph
+    fails = []
+    if inp['op'] == 'from_opchains':
+        chains = [OpChain(c['oids'], c['qnums'], c['coeff'], c['istart']) for c in inp['chains']]
+        before = [(list(c.oids), list(c.qnums), c.coeff, c.istart) for c in chains]
+        try:
+            OpGraph.from_opchains(chains, inp['L'], 0)
+        except Exception:
+            return []
+        if before != [(list(c.oids), list(c.qnums), c.coeff, c.istart) for c in chains]:
+            fails.append('from_opchains modified the chains it was given')
+    else:
+        g = _graph_from_json(inp['graph'])
+        for n in g.nodes.values():
+            n.qnum = 0
+        rng = np.random.default_rng(3)
+        opmap = {0: rng.standard_normal((2, 2)), 1: rng.standard_normal((2, 2))}
+        o0 = {k: v.copy() for k, v in opmap.items()}
+        qd = np.zeros(2, dtype=int)
+        before = _graph_dump(g)
+        try:
+            mpo = ptn.MPO.from_opgraph(qd, g, opmap, compute_nid_map=True)
+        except Exception:
+            return []
+        if _graph_dump(g) != before or any(not np.array_equal(opmap[k], o0[k]) for k in opmap):
+            fails.append('from_opgraph modified the graph or the operator map')
+        for a in mpo.A:
+            a.reshape(-1)[0] = 31337
+        mpo.zero_qnumbers(); mpo.qd += 1
+        if any(not np.array_equal(opmap[k], o0[k]) for k in opmap) or list(qd) != [0, 0]:
+            fails.append('mutating the MPO changed the operator map / qd argument')
     return fails
 
 # -------------------------------------------------------------------------------------------
